@@ -381,7 +381,7 @@ def emit_fix(T, oRule, oFile, cur, dFixOnly, pre_list_digest):
         if cheap_digest(lAll) != pre_list_digest:
             T.dirty = True
             T.emit({"e": "Fix", "rule": T.rid(oRule), "cls": info["cls"], "phase": oRule.phase or 0, "sub": oRule.subphase, "remap": bool(oRule.remap),
-                    "fixable": bool(oRule.fixable), "sevErr": oRule.severity.type == severity.error_type, "named": [], "mayDrop": False, "rep": [], "kept": [], "win": [], "afterU": T.us(lAll), "collat": [], "silent": True, "resync": True,
+                    "fixable": bool(oRule.fixable), "sevErr": oRule.severity.type == severity.error_type, "prereq": bool(getattr(oRule, "prerequisites", [])), "named": [], "mayDrop": False, "rep": [], "kept": [], "win": [], "afterU": T.us(lAll), "collat": [], "silent": True, "resync": True,
                     "full": T.abs_list(lAll), "sel": fix_only_sel(oRule, dFixOnly)})
         return
     L0, C0 = cur["L0"], cur["C0"]
@@ -445,6 +445,7 @@ def emit_fix(T, oRule, oFile, cur, dFixOnly, pre_list_digest):
             "remap": bool(oRule.remap),
             "fixable": bool(oRule.fixable),
             "sevErr": oRule.severity.type == severity.error_type,
+            "prereq": bool(getattr(oRule, "prerequisites", [])),
             "named": named_roles(T, oRule),
             "mayDrop": bool(info.get("mayDrop", False)),
             "rep": sorted(set(cur["reported"])),
